@@ -28,11 +28,13 @@ def expected_refined_kv(kv, p, d):
     return out
 
 
-def h_refine(cx, sp, dens):
+def h_refine(cx, sp, dens, after_sibling=False):
     ops = geo.M('operations')
     obj, info = shapes.build(cx, sp)
     ref = shapes.clone(obj)
     before = shapes.snapshot(obj)
+    if after_sibling:
+        shapes.prime_with_sibling(cx, sp, lambda sib, _i: ops.refine_knotvector(sib, list(dens)))
     ops.refine_knotvector(obj, list(dens))
     after = shapes.snapshot(obj)
     for d, den in enumerate(dens):
@@ -135,10 +137,16 @@ def instances(tier):
     out = []
     quick = tier == 'quick'
 
-    def add(sp, dens, timeout=900):
-        nm = '%s refine%s' % (spec_name(sp), list(dens))
+    def add(sp, dens, timeout=900, after_sibling=False):
+        nm = '%s refine%s%s' % (spec_name(sp), list(dens), ' after a sibling' if after_sibling else '')
         if not any(i.name == nm for i in out):
-            out.append(inst(nm, h_refine, timeout=timeout, sp=sp, dens=tuple(dens)))
+            out.append(inst(nm, h_refine, timeout=timeout, sp=sp, dens=tuple(dens), after_sibling=after_sibling))
+
+    add(spec('curve', (2,), ((1,),), rational=False), [1], after_sibling=True)
+    add(spec('curve', (3,), ((),), rational=True), [2], after_sibling=True)
+    add(spec('surface', (1, 2), ((1,), ()), rational=False), [1, 0], after_sibling=True)
+    add(spec('surface', (2, 1), ((), (1,)), rational=True), [0, 1], after_sibling=True)
+    add(spec('volume', (1, 1, 2), ((), (1,), ()), rational=False), [0, 1, 0], after_sibling=True, timeout=1800)
 
     for p in ((1, 2, 3) if quick else (1, 2, 3, 4)):
         for m in [(), (1,), (p,), (1, 1)] + ([(2,)] if p >= 3 else []):
